@@ -6,16 +6,22 @@
 // chains and credentials, records what the real net.ParseIP / ParseCIDR /
 // SplitHostPort answered on every string involved, evaluates the same rule
 // text independently with net/netip, and writes the cases for the Coq model.
+// Also: long X-Forwarded-For lists (class http/xff-long) and histories of a
+// basic scheme whose htpasswd file is replaced / removed while requests are
+// served, with requests sent from inside the re-read through the standard
+// logger (class http/auth-reload, case type CReload, Model/BasicReload.v).
 package main
 
 import (
 	"bufio"
+	"bytes"
 	"context"
 	"crypto/sha1"
 	"crypto/tls"
 	"encoding/base64"
 	"fmt"
 	"io"
+	"log"
 	"math/big"
 	"math/rand"
 	"net"
@@ -28,6 +34,7 @@ import (
 	"sort"
 	"strconv"
 	"strings"
+	"sync"
 	"sync/atomic"
 	"time"
 
@@ -48,7 +55,7 @@ import (
 )
 
 const preamble = `From Coq Require Import List NArith String.
-From Fabio Require Import Lib.Outcome Lib.Bytes Lib.Pack Model.Access Check.C12.
+From Fabio Require Import Lib.Outcome Lib.Bytes Lib.Pack Model.Access Model.BasicReload Check.C12.
 Import ListNotations.
 Local Open Scope N_scope.
 `
@@ -758,6 +765,67 @@ type credGen struct {
 
 func basicHeader(u, pw string) string {
 	return "Basic " + base64.StdEncoding.EncodeToString([]byte(u+":"+pw))
+}
+
+// ---------- refreshed htpasswd files (class http/auth-reload) ----------
+// one line of a generated htpasswd file: kind 0 = user entry, 1 = malformed (no colon; the text
+// carries a marker the log hook recognises), 2 = blank
+type hLine struct {
+	kind     int
+	user, pw string
+	text     string // the line as written
+}
+
+func coqHFile(f []hLine) string {
+	items := make([]string, len(f))
+	for i, l := range f {
+		switch l.kind {
+		case 0:
+			items[i] = vh.App("HUser", vh.HxS(l.user), vh.HxS(l.pw))
+		case 1:
+			items[i] = "HBad"
+		default:
+			items[i] = "HBlank"
+		}
+	}
+	return vh.List(items)
+}
+
+func hFileText(f []hLine) []byte {
+	var b bytes.Buffer
+	for _, l := range f {
+		b.WriteString(l.text)
+		b.WriteByte('\n')
+	}
+	return b.Bytes()
+}
+
+// reloadHook is installed as the output of the standard logger.  fabio's bad-line handler logs
+// the offending line from INSIDE the scanner loop of htpasswd's ReloadFromReader, i.e. in the
+// refresh goroutine, after it noticed the change and before the new table is swapped in; when the
+// logged text carries the armed marker the hook runs onBad right there.
+type reloadHook struct {
+	mu     sync.Mutex
+	marker string
+	onBad  func(tail string)
+}
+
+func (w *reloadHook) arm(marker string, f func(string)) {
+	w.mu.Lock()
+	w.marker, w.onBad = marker, f
+	w.mu.Unlock()
+}
+
+func (w *reloadHook) Write(p []byte) (int, error) {
+	w.mu.Lock()
+	m, f := w.marker, w.onBad
+	w.mu.Unlock()
+	if m != "" && f != nil {
+		if i := bytes.Index(p, []byte(m)); i >= 0 {
+			f(strings.TrimSpace(string(p[i+len(m):])))
+		}
+	}
+	return len(p), nil
 }
 
 func main() {
@@ -1615,6 +1683,468 @@ func main() {
 					"backend_calls": reached, "ok": callErr == nil, "err": fmt.Sprint(callErr), "ref_admit": ref.admits(peer)})
 		}
 		route.SetTable(route.Table{})
+	}
+
+	// ---------------- 7. long X-Forwarded-For lists ----------------
+	// "every address listed in X-Forwarded-For": lists of 5-328 elements over one or several header
+	// lines (the lines form ONE list), the not-admitted address at a chosen position (first, middle,
+	// around 32 and 64, last but one, last, random), all others admitted; also clean lists (forwarded)
+	// and lists with two not-admitted addresses, garbage or the peer itself in between.  Ordinary
+	// CHttp cases; the choices come from a source of their own.
+	// (The cases are big terms; they are generated in small batches between the histories of
+	// section 8 so that they spread over several shards.)
+	r7 := rand.New(rand.NewSource(run.Seed*7919 + 7))
+	longXFF := func(count int) {
+		for i := 0; i < count; i++ {
+			var g ruleGen
+			for {
+				if g = genRule(r7); g.class == "allow" || g.class == "deny" {
+					break
+				}
+			}
+			ref := refParse(g.allow, g.deny)
+			cands := candidates(r7, &ref)
+			for k := 0; k < 12; k++ {
+				cands = append(cands, randAddr(r7))
+			}
+			var in, out []netip.Addr
+			for _, a := range cands {
+				if ref.admits(a) {
+					in = append(in, a)
+				} else {
+					out = append(out, a)
+				}
+			}
+			if len(in) == 0 || len(out) == 0 {
+				run.Exclude("xff-long: the rule admits none or all of the candidate addresses")
+				continue
+			}
+			var n int
+			switch k := r7.Intn(20); {
+			case k < 4:
+				n = 5 + r7.Intn(28)
+			case k < 8:
+				n = []int{33, 34, 35, 36, 64, 65, 66, 128, 129}[r7.Intn(9)]
+			case k < 12:
+				n = 33 + r7.Intn(34)
+			case k < 16:
+				n = 67 + r7.Intn(62)
+			default:
+				n = 129 + r7.Intn(200)
+			}
+			clip := func(p int) int {
+				if p < 0 {
+					return 0
+				}
+				if p >= n {
+					return n - 1
+				}
+				return p
+			}
+			// the tail of the list is where an element is most easily lost
+			pos := clip([]int{n - 1, n - 1, n - 2, n - 2, n - 3, n - 1 - r7.Intn(5), 0, n / 2, 30, 31, 32, 33, 34, 63, 64, r7.Intn(n), r7.Intn(n), r7.Intn(n)}[r7.Intn(18)])
+			peerText := addrText(r7, pick(r7, in))
+			es := make([]string, n)
+			for k := range es {
+				es[k] = addrText(r7, pick(r7, in))
+			}
+			kind := "dirty"
+			switch r7.Intn(10) {
+			case 0, 1:
+				kind, pos = "clean", -1
+			case 2:
+				es[pos] = addrText(r7, pick(r7, out))
+				p2 := clip(pos + 1 + r7.Intn(n))
+				es[p2] = addrText(r7, pick(r7, out))
+			default:
+				es[pos] = addrText(r7, pick(r7, out))
+			}
+			if k := r7.Intn(n); k != pos && r7.Intn(5) == 0 {
+				es[k] = garbage[r7.Intn(len(garbage))]
+			}
+			if k := r7.Intn(n); k != pos && r7.Intn(6) == 0 {
+				es[k] = peerText
+			}
+			sep := []string{",", ", ", ", ", " , "}[r7.Intn(4)]
+			var lines []string
+			switch r7.Intn(4) {
+			case 0: // several header lines
+				for rest := es; len(rest) > 0; {
+					k := 1 + r7.Intn(len(rest))
+					if len(lines) == 3 {
+						k = len(rest)
+					}
+					lines = append(lines, strings.Join(rest[:k], sep))
+					rest = rest[k:]
+				}
+			case 1: // one header line per element
+				lines = append(lines, es...)
+			default:
+				lines = []string{strings.Join(es, sep)}
+			}
+			redirect := 0
+			if r7.Intn(4) == 0 {
+				redirect = redirectCodes[r7.Intn(len(redirectCodes))]
+			}
+			class := "xff-long/" + kind
+			if pos >= 31 {
+				class += "-from-32nd"
+			}
+			addHTTP(class, httpIn{g: g, present: true, cred: noCred, remote: net.JoinHostPort(peerText, strconv.Itoa(1+r7.Intn(65535))), xff: lines,
+				redirect: redirect, via: []int{0, 0, 0, 0, 0, 0, 0, 1, 2, 2}[r7.Intn(10)],
+				note: fmt.Sprintf("%d elements in %d header lines, not-admitted address at index %d", n, len(lines), pos)})
+		}
+	}
+
+	// ---------------- 8. a refreshed htpasswd file: requests WHILE and AFTER it is re-read ----------------
+	// auth=<scheme> with a basic scheme whose refresh is on.  The operator replaces the file (users
+	// removed, passwords changed, users added; rename, explicit ModTime) or removes it.  The new
+	// file carries 0-3 malformed lines: fabio's bad-line handler logs them from inside the scanner
+	// loop of the re-read, and the log hook sends requests right there, i.e. in the window between
+	// "change noticed" and "new table swapped in" (the model: the OLD file is in force).  Then the
+	// harness waits until the new file's canary user is accepted and sends the old and the new pairs
+	// again (the model and the property: the NEW file decides).  One CReload case per request.
+	{
+		r8 := rand.New(rand.NewSource(run.Seed*104729 + 8))
+		hook := &reloadHook{}
+		log.SetOutput(hook)
+		pw8 := func(n int) string {
+			const cs = "abcdefghijklmnopqrstuvwxyzABCDEFGHIJKLMNOPQRSTUVWXYZ0123456789-_:!"
+			b := make([]byte, n)
+			for i := range b {
+				b[i] = cs[r8.Intn(len(cs))]
+			}
+			return string(b)
+		}
+		mkUser := func(name, pw string) hLine {
+			l := hLine{kind: 0, user: name, pw: pw}
+			switch r8.Intn(3) {
+			case 0:
+				l.text = shaLine(name, pw)
+			case 1:
+				l.text = bcryptLine(name, pw)
+			default:
+				l.text = name + ":" + pw // AcceptPlain
+			}
+			return l
+		}
+		coqCreds := func(header string) (string, string) {
+			req := &http.Request{Header: http.Header{}}
+			if header != "" {
+				req.Header.Set("Authorization", header)
+			}
+			u, pw, ok := req.BasicAuth()
+			return fmt.Sprintf("{| c_ok := %s; c_user := %s; c_pw := %s |}", vh.Bool(ok), vh.HxS(u), vh.HxS(pw)), fmt.Sprintf("%q/%q ok=%v", u, pw, ok)
+		}
+		for h := 0; h < run.Scale(14, 100); h++ {
+			longXFF(run.Scale(8, 12))
+			file := filepath.Join(dir, fmt.Sprintf("reload%d.htpasswd", h))
+			base := time.Now().Truncate(time.Second).Add(-time.Hour)
+			names := []string{"alice", "bob", "carol", "dave", "erin", "frank", "al", "alicia", "x", "Bob"}
+			r8.Shuffle(len(names), func(i, j int) { names[i], names[j] = names[j], names[i] })
+			fresh := 0
+			nextName := func() string {
+				fresh++
+				if fresh <= len(names) {
+					return names[fresh-1]
+				}
+				return fmt.Sprintf("user%d", fresh)
+			}
+			layout := func(us []hLine, nBad int, marker string) []hLine {
+				f := append([]hLine(nil), us...)
+				r8.Shuffle(len(f), func(i, j int) { f[i], f[j] = f[j], f[i] })
+				for k := 0; k < nBad; k++ {
+					at := []int{0, len(f), len(f) / 2, r8.Intn(len(f) + 1)}[r8.Intn(4)]
+					txt := []string{"#" + marker + strconv.Itoa(k), marker + strconv.Itoa(k) + " staff accounts"}[r8.Intn(2)]
+					f = append(f[:at], append([]hLine{{kind: 1, text: txt}}, f[at:]...)...)
+				}
+				for k := r8.Intn(2); k > 0; k-- {
+					at := r8.Intn(len(f) + 1)
+					f = append(f[:at], append([]hLine{{kind: 2, text: []string{"", "   ", "\t"}[r8.Intn(3)]}}, f[at:]...)...)
+				}
+				return f
+			}
+			install := func(f []hLine, v int) {
+				tmp := file + ".new"
+				if err := os.WriteFile(tmp, hFileText(f), 0o600); err != nil {
+					panic(err)
+				}
+				mt := base.Add(time.Duration(2*v) * time.Second)
+				if err := os.Chtimes(tmp, mt, mt); err != nil {
+					panic(err)
+				}
+				if err := os.Rename(tmp, file); err != nil {
+					panic(err)
+				}
+			}
+			// version 0: what htpasswd.New reads (no malformed line: nothing to hook yet)
+			users := []hLine{}
+			for k := 2 + r8.Intn(2); k > 0; k-- {
+				users = append(users, mkUser(nextName(), pw8(1+r8.Intn(9))))
+			}
+			canary := mkUser(fmt.Sprintf("canary%dv0", h), pw8(6))
+			init := layout(append(append([]hLine(nil), users...), canary), 0, "")
+			install(init, 0)
+			authName := []string{"mybasic", "staff"}[r8.Intn(2)]
+			hs, err := auth.LoadAuthSchemes(map[string]config.AuthScheme{authName: {Name: authName, Type: "basic",
+				Basic: config.BasicAuth{Realm: "r", File: file, Refresh: 10 * time.Millisecond}}})
+			if err != nil {
+				panic(err)
+			}
+			sp := &sharedProxy{}
+			if h%3 == 1 {
+				sp.redirect = redirectCodes[r8.Intn(len(redirectCodes))]
+			}
+			sp.tbl = mkTable(r8, "", "", authName, sp.redirect)
+			sp.p = &proxy.HTTPProxy{
+				Transport: rtFunc(func(req *http.Request) (*http.Response, error) {
+					sp.hits++
+					return &http.Response{StatusCode: 200, Proto: "HTTP/1.1", ProtoMajor: 1, ProtoMinor: 1, Header: http.Header{},
+						Body: io.NopCloser(strings.NewReader("ok")), Request: req}, nil
+				}),
+				Lookup:      tableLookup(sp.tbl),
+				AuthSchemes: hs,
+			}
+			doReq := func(header string) (int, int, bool) {
+				before := sp.hits
+				req := httptest.NewRequest("GET", "http://svc.example/", nil)
+				req.RemoteAddr = "192.0.2.7:4711"
+				if header != "" {
+					req.Header.Set("Authorization", header)
+				}
+				rec := httptest.NewRecorder()
+				sp.p.ServeHTTP(rec, req)
+				return rec.Code, sp.hits - before, rec.Header().Get("Location") != ""
+			}
+			type reqStep struct {
+				histLen            int
+				phase, note, creds string
+				header             string
+				status, hits       int
+				loc                bool
+			}
+			var hist, histNotes []string
+			var steps []reqStep
+			abandoned := ""
+			var stuck []chan struct{}
+			// send runs one request; inside the bad-line callback it runs on a goroutine of its own with
+			// a timeout (the callback holds the standard logger's lock: a request that logs would block)
+			send := func(inHook bool, phase, note, header string) {
+				if abandoned != "" {
+					return
+				}
+				var st, hi int
+				var loc, pn bool
+				var pv interface{}
+				done := make(chan struct{})
+				call := func() { defer close(done); pn, pv = vh.Recover(func() { st, hi, loc = doReq(header) }) }
+				if inHook {
+					go call()
+					select {
+					case <-done:
+					case <-time.After(3 * time.Second):
+						abandoned = "a request inside the bad-line callback blocked (it logs while the logger is held)"
+						stuck = append(stuck, done)
+						return
+					}
+				} else {
+					call()
+				}
+				if pn {
+					run.Violation(run.NextID(), fmt.Sprintf("ServeHTTP panicked: %v", pv), note)
+					return
+				}
+				steps = append(steps, reqStep{histLen: len(hist), phase: phase, note: note, header: header, status: st, hits: hi, loc: loc})
+			}
+			pair := func(inHook bool, phase, note string, u hLine) {
+				send(inHook, phase, fmt.Sprintf("%s %q/%q", note, u.user, u.pw), basicHeader(u.user, u.pw))
+			}
+			waitCanary := func(c hLine, want bool) bool {
+				deadline := time.Now().Add(5 * time.Second)
+				for {
+					st, _, _ := doReq(basicHeader(c.user, c.pw))
+					if (st == 200 || (sp.redirect != 0 && st == sp.redirect)) == want {
+						return true
+					}
+					if time.Now().After(deadline) {
+						return false
+					}
+					time.Sleep(2 * time.Millisecond)
+				}
+			}
+			others := func(inHook bool, phase string, known []hLine) {
+				if len(known) > 0 {
+					u := known[r8.Intn(len(known))]
+					switch r8.Intn(3) {
+					case 0:
+						send(inHook, phase, "wrong password for "+u.user, basicHeader(u.user, u.pw+"x"))
+					case 1:
+						send(inHook, phase, "unknown user with the password of "+u.user, basicHeader(u.user+"x", u.pw))
+					default:
+						send(inHook, phase, "empty password for "+u.user, basicHeader(u.user, ""))
+					}
+				}
+				if r8.Intn(2) == 0 {
+					send(inHook, phase, "no header", "")
+				}
+			}
+			for _, u := range users {
+				pair(false, "initial", "good login", u)
+			}
+			others(false, "initial", users)
+
+			inForce := append([]hLine(nil), users...) // user lines of the content in force (canary excluded)
+			last := append([]hLine(nil), users...)    // user lines of the content written last
+			lastCanary := canary
+			nVersions := 2 + r8.Intn(3)
+			for v := 1; v <= nVersions && abandoned == ""; v++ {
+				if v > 1 && v < nVersions && r8.Intn(4) == 0 {
+					// the operator removes the file: the goroutine clears the credentials
+					hook.arm("", nil)
+					if err := os.Remove(file); err != nil {
+						panic(err)
+					}
+					hist, histNotes = append(hist, "HsRemove"), append(histNotes, fmt.Sprintf("v%d: file removed", v))
+					if !waitCanary(lastCanary, false) {
+						run.Violation(run.NextID(), "auth-reload: the credentials of a removed htpasswd file were still accepted 5 s after the removal", histNotes)
+						abandoned = "violation"
+						break
+					}
+					hist, histNotes = append(hist, "HsInForce"), append(histNotes, "cleared credentials seen in force")
+					for _, u := range inForce {
+						pair(false, "cleared", "pair of the removed file", u)
+					}
+					pair(false, "cleared", "canary of the removed file", lastCanary)
+					others(false, "cleared", inForce)
+					inForce = nil
+					continue
+				}
+				// the next content: users removed, passwords changed, users kept, users added
+				var next, removed, changedOld, changedNew, kept, added []hLine
+				for i, u := range last {
+					k := r8.Intn(3)
+					if i == 0 {
+						k = r8.Intn(2) // at least one user loses the old pair
+					}
+					switch k {
+					case 0:
+						removed = append(removed, u)
+					case 1:
+						nu := mkUser(u.user, u.pw+pw8(1+r8.Intn(3)))
+						changedOld, changedNew, next = append(changedOld, u), append(changedNew, nu), append(next, nu)
+					default:
+						kept, next = append(kept, u), append(next, u)
+					}
+				}
+				for k := r8.Intn(3); k > 0; k-- {
+					nu := mkUser(nextName(), pw8(1+r8.Intn(9)))
+					added, next = append(added, nu), append(next, nu)
+				}
+				canary := mkUser(fmt.Sprintf("canary%dv%d", h, v), pw8(6))
+				nBad := []int{0, 1, 1, 2, 3}[r8.Intn(5)]
+				marker := fmt.Sprintf("c12r-%d-%d-", h, v)
+				content := layout(append(append([]hLine(nil), next...), canary), nBad, marker)
+				hooksDone := make(chan struct{})
+				seen := 0
+				oldPairs := append(append(append([]hLine(nil), removed...), changedOld...), lastCanary)
+				hook.arm(marker, func(tail string) {
+					// runs in the refresh goroutine, inside ReloadFromReader's scanner loop
+					hist, histNotes = append(hist, "HsBad"), append(histNotes, "bad-line callback "+tail)
+					if len(inForce) > 0 || seen == 0 {
+						pair(true, "window", "old pair while the new file is being read", oldPairs[r8.Intn(len(oldPairs))])
+					}
+					for k := r8.Intn(3); k > 0; k-- {
+						all := append(append(append(append([]hLine(nil), changedNew...), added...), kept...), canary)
+						pair(true, "window", "pair of the new file while it is being read", all[r8.Intn(len(all))])
+					}
+					if r8.Intn(2) == 0 {
+						others(true, "window", append(append([]hLine(nil), last...), next...))
+					}
+					if seen++; seen == nBad {
+						close(hooksDone)
+					}
+				})
+				hist = append(hist, vh.App("HsWrite", coqHFile(content), vh.N(2*v)))
+				histNotes = append(histNotes, fmt.Sprintf("v%d written: %d removed, %d changed, %d kept, %d added, %d malformed lines", v, len(removed), len(changedOld), len(kept), len(added), nBad))
+				install(content, v)
+				if nBad > 0 {
+					select {
+					case <-hooksDone:
+					case <-time.After(5 * time.Second):
+						hook.arm("", nil)
+						if abandoned == "" {
+							run.Violation(run.NextID(), "auth-reload: the refresh goroutine did not re-read the changed htpasswd file within 5 s (no bad-line callback)", histNotes)
+							abandoned = "violation"
+						}
+					}
+				}
+				hook.arm("", nil)
+				if abandoned != "" {
+					break
+				}
+				if !waitCanary(canary, true) {
+					run.Violation(run.NextID(), "auth-reload: the changed htpasswd file never came into force (its new user still rejected after 5 s)", histNotes)
+					abandoned = "violation"
+					break
+				}
+				hist, histNotes = append(hist, "HsInForce"), append(histNotes, fmt.Sprintf("v%d seen in force", v))
+				var after []func()
+				for _, u := range removed {
+					u := u
+					after = append(after, func() { pair(false, "in-force", "pair of a removed user", u) })
+				}
+				for _, u := range changedOld {
+					u := u
+					after = append(after, func() { pair(false, "in-force", "old password of a user whose password changed", u) })
+				}
+				for _, u := range changedNew {
+					u := u
+					after = append(after, func() { pair(false, "in-force", "new password", u) })
+				}
+				for _, u := range kept {
+					u := u
+					after = append(after, func() { pair(false, "in-force", "unchanged pair", u) })
+				}
+				for _, u := range added {
+					u := u
+					after = append(after, func() { pair(false, "in-force", "pair of a new user", u) })
+				}
+				oc := lastCanary
+				after = append(after, func() { pair(false, "in-force", "pair of a removed user", oc) })
+				r8.Shuffle(len(after), func(i, j int) { after[i], after[j] = after[j], after[i] })
+				for _, f := range after {
+					f()
+				}
+				others(false, "in-force", append(append([]hLine(nil), last...), next...))
+				if len(removed)+len(changedOld) > 0 && r8.Intn(2) == 0 {
+					time.Sleep(25 * time.Millisecond) // a few refresh periods later
+					for _, u := range append(append([]hLine(nil), removed...), changedOld...) {
+						pair(false, "in-force", "old pair again, some refresh periods later", u)
+					}
+				}
+				inForce, last, lastCanary = next, next, canary
+			}
+			hook.arm("", nil)
+			for _, d := range stuck {
+				<-d
+			}
+			if abandoned != "" && abandoned != "violation" {
+				run.Exclude("auth-reload: " + abandoned)
+				continue
+			}
+			for i, st := range steps {
+				creds, shown := coqCreds(st.header)
+				class := "auth-reload/" + st.phase
+				if sp.redirect != 0 {
+					class += "+redirect"
+				}
+				run.Add("http/"+class, vh.App("CReload", vh.N(sp.redirect), vh.HxS(authName), coqHFile(init), vh.N(0), vh.List(hist[:st.histLen]), vh.N(i), creds,
+					vh.N(st.status), vh.N(st.hits), vh.Bool(st.loc)),
+					map[string]interface{}{"history": h, "auth": authName, "redirect": sp.redirect, "phase": st.phase, "request": st.note, "basic_auth": shown,
+						"before": histNotes[:st.histLen], "requests_before": i, "status": st.status, "upstream_hits": st.hits})
+			}
+		}
+		log.SetOutput(io.Discard)
 	}
 
 	run.Finish(preamble, run.Scale(140, 700))
